@@ -1444,3 +1444,64 @@ def run_countloop(chk, F, G, rid="R-COUNTLOOP"):
                    sample="%s::%s: count %s is never 0" % (fn["cls"].split("::")[-1], fn["name"], pname))
     if n < 1:
         raise AnalysisBroken("no `while (--count)` loop over an unsigned parameter found in the builder classes")
+
+
+# ---------------------------------------------------------------------------------------------- R-NPOS
+STRING_FINDS = ("find", "rfind", "find_first_of", "find_last_of", "find_first_not_of", "find_last_not_of")
+
+
+def run_npos(chk, F, CG, entries, rid="R-NPOS", minimum=1):
+    """`auto i = s.find(c); s.substr(i)` throws std::out_of_range when c is absent (i == npos > size()).  Found by a
+    defect-hunt sub-agent: variable_t::print looked for the `[` of an array type in its text, which a typedef'd array type
+    (`arr_t a;`) does not have, so the XML writer could not write the model (E08-4)."""
+    from ..inline import sites_with_conditions, strip
+    chk.rule(rid, "a position obtained from std::string::find* is used as the start of substr / erase / at / replace / "
+                  "insert only on a path that has compared it with npos and found it different (assert() does not "
+                  "count: NDEBUG)")
+    scope = reachable_from(F, CG, entries)
+    n = 0
+    for fn in sorted(F.functions.values(), key=lambda f: (f.get("file") or "", f.get("line") or 0)):
+        fl = fn.get("file") or ""
+        if fn.get("body") is None or fl.startswith("/usr") or "/test/" in fl or fn["q"] not in scope:
+            continue
+        pos = {}
+        for d in walk(fn["body"]):
+            vs = d.get("vars", []) if d.get("k") == "decl" else []
+            for v in vs:
+                if v.get("init") is not None and any(c.get("name") in STRING_FINDS and "basic_string" in (c.get("cls") or "")
+                                                     for c in calls(v["init"])):
+                    pos[v.get("id")] = v.get("name")
+        if not pos:
+            continue
+
+        def is_use(x):
+            if x.get("k") == "call" and x.get("name") in ("substr", "erase", "at", "replace", "insert") and x.get("args"):
+                a = strip(x["args"][0])
+                return isinstance(a, dict) and a.get("k") == "ref" and a.get("id") in pos
+            return False
+        for site, conds in sites_with_conditions(fn["body"], is_use):
+            vid = strip(site["args"][0]).get("id")
+            n += 1
+
+            def ne_npos(c, t):
+                c = strip(c)
+                if not isinstance(c, dict):
+                    return False
+                if c.get("k") == "bin" and c.get("op") == "&&" and t:
+                    return ne_npos(c["lhs"], True) or ne_npos(c["rhs"], True)
+                if c.get("k") == "bin" and c.get("op") == "||" and not t:
+                    return ne_npos(c["lhs"], False) or ne_npos(c["rhs"], False)
+                if c.get("k") == "un" and c.get("op") == "!":
+                    return ne_npos(c["e"], not t)
+                if c.get("k") == "bin" and c.get("op") in ("!=", "=="):
+                    has_v = any(x.get("k") == "ref" and x.get("id") == vid for x in walk(c))
+                    has_n = any(x.get("name") == "npos" for x in walk(c))
+                    return has_v and has_n and ((c["op"] == "!=") == t)
+                return False
+            ok = any(ne_npos(c, t) for c, t in conds)
+            chk.ob(rid, "%s|%s|%s" % (fn["name"], pos[vid], site.get("name")), ok,
+                   "%s uses the position `%s` that std::string::find returned in `%s` without having ruled out npos: if the "
+                   "text searched for is absent the call throws std::out_of_range" %
+                   (fn["q"], pos[vid], short(site)[:50]), "%s:%s" % (fl, site.get("l")))
+    if n < minimum:
+        raise AnalysisBroken("R-NPOS: only %d uses of string positions found" % n)
